@@ -40,15 +40,16 @@ type Conn struct {
 
 // End is one endpoint; it implements net.Conn.
 type End struct {
-	c        *Conn
-	server   bool
-	rd, wr   *pipe
-	local    net.Addr
-	remote   net.Addr
-	deadline time.Time
-	wake     chan struct{}
-	closed   bool
-	actor    string
+	c         *Conn
+	server    bool
+	rd, wr    *pipe
+	local     net.Addr
+	remote    net.Addr
+	deadline  time.Time
+	wdeadline time.Time
+	wake      chan struct{}
+	closed    bool
+	actor     string
 }
 
 // NonTCPAddr is a net.Addr that is not a *net.TCPAddr.
@@ -162,6 +163,12 @@ func (e *End) Write(p []byte) (int, error) {
 		c.w.Rec(Ev{Actor: e.actor, Kind: "write-closed", Conn: c.ID, A: int64(len(p))})
 		return 0, &net.OpError{Op: "write", Net: "tcp", Err: net.ErrClosed}
 	}
+	if !e.wdeadline.IsZero() && !time.Now().Before(e.wdeadline) {
+		// a write deadline armed by the code under test has passed: as on a TCP socket
+		c.mu.Unlock()
+		c.w.Rec(Ev{Actor: e.actor, Kind: "write", Conn: c.ID, A: 0, B: int64(len(p)), S: "write-deadline", Bytes: append([]byte(nil), p...)})
+		return 0, &net.OpError{Op: "write", Net: "tcp", Err: timeoutError{}}
+	}
 	c.nWrite++
 	k := c.nWrite
 	var wf *WriteFault
@@ -258,7 +265,10 @@ func (e *End) Close() error {
 func (e *End) LocalAddr() net.Addr  { return e.local }
 func (e *End) RemoteAddr() net.Addr { return e.remote }
 
-func (e *End) SetDeadline(t time.Time) error { return e.SetReadDeadline(t) }
+func (e *End) SetDeadline(t time.Time) error {
+	e.SetWriteDeadline(t)
+	return e.SetReadDeadline(t)
+}
 func (e *End) SetReadDeadline(t time.Time) error {
 	c := e.c
 	c.mu.Lock()
@@ -274,7 +284,15 @@ func (e *End) SetReadDeadline(t time.Time) error {
 	e.poke()
 	return nil
 }
-func (e *End) SetWriteDeadline(t time.Time) error { return nil }
+func (e *End) SetWriteDeadline(t time.Time) error {
+	e.c.mu.Lock()
+	e.wdeadline = t
+	e.c.mu.Unlock()
+	if e.server {
+		e.c.w.Rec(Ev{Actor: e.actor, Kind: "set-write-deadline", Conn: e.c.ID})
+	}
+	return nil
+}
 
 // ---- scheduler-side operations ----------------------------------------------
 
